@@ -153,6 +153,9 @@ class Scheduler:
             if code.co_filename in files or os.path.realpath(code.co_filename) in files:
                 if funcs is None:
                     return make_local(None)
+                star = funcs.get("*")
+                if star and (code.co_filename in star or os.path.realpath(code.co_filename) in star):
+                    return make_local(None)
                 if code.co_name in funcs:
                     return make_local(funcs[code.co_name])
             return None
@@ -431,6 +434,29 @@ def shim(real=threading):
 # ---------------------------------------------------------------------- schedule enumeration
 class Outcome:
     __slots__ = ("results", "status", "decisions", "alternatives", "verdict", "extra", "bg", "fg", "names")
+
+
+def with_fallback(funcs, groups):
+    """groups: [(file, [names])].  The traced functions are given by NAME; when a refactoring has renamed one of
+    them (no `def name(` in its file any more), every function of that file becomes a yield-point function instead
+    (key "*" of the result).  More points than before, never fewer."""
+    import re
+    if funcs is None:
+        return None
+    out = dict(funcs) if isinstance(funcs, dict) else {f: None for f in funcs}
+    star = set()
+    for path, names in groups:
+        try:
+            with open(path) as f:
+                src = f.read()
+        except OSError:
+            continue
+        if any(not re.search(r"^\s*def\s+%s\s*\(" % re.escape(n), src, re.M) for n in names):
+            star.add(path)
+            star.add(os.path.realpath(path))
+    if star:
+        out["*"] = star
+    return out
 
 
 def run_one(make, files, funcs, schedule, max_decisions=4000, keep_trace=False):
